@@ -388,6 +388,8 @@ func planFaults(r *Rand, w *Workload, calls []string, n int, enabled map[string]
 			return 4
 		case strings.HasPrefix(p, "cfg/"):
 			return 3
+		case strings.HasPrefix(p, "tpl/"):
+			return 2
 		}
 		return 1
 	}
